@@ -142,6 +142,16 @@ func optVariants(w *W, r *rand.Rand, tree *Node, undefined bool, events int, wit
 				vs = append(vs, v)
 			}
 		}
+		if withDirectives {
+			// a third way of selecting the subset: the Optimizations(...) option functions
+			fcfg := cfgFor(tree, o, undefined)
+			fcfg.Events = events
+			fcfg.OptionFuncs = o.optionFuncs(r)
+			if v, ok := compileVariant(w, tree, src, fcfg, "option-funcs"); ok {
+				v.Directive = true // judged like a directive variant: must equal the option-selected one
+				vs = append(vs, v)
+			}
+		}
 		if withCosts && o&OptRO != 0 {
 			for _, path := range []bool{false, true} {
 				ccfg := cfgFor(tree, o, undefined)
